@@ -158,6 +158,36 @@ def check_case(ctx, tag, nodes, root, big=False, opts=D.OPTS, forms=FORMS, entri
     rootc = libs[root]
     if rootc is None:
         ctx.count('unconstructible-root')
+        # a DAG the TON cell rules admit (independent Python spec, gen/cells.py:spec_dag) must be constructible: a bag that
+        # cannot even be built cannot round-trip / be emitted (e.g. one boundary bit length refused by the constructor)
+        sp = G.spec_dag(nodes)[root]
+        if sp is not None and sp.valid:
+            alt = None
+            for route in ('plain', 'builder'):
+                alt = G.lib_build(nodes, route)[root]
+                if alt is not None:
+                    break
+            small0 = sum(len(n[1]) + 8 for n in nodes) < 40000
+            inp0 = {'tag': tag, 'dag': [list(n) for n in nodes] if small0 else f'<{len(nodes)} nodes, regenerate from tag and seed>', 'root': root}
+            ctx.case((tag, root, 'unconstructible'), nontrivial=True, sample={'tag': tag, 'unconstructible': True})
+            if alt is None:
+                ctx.fail('unconstructible-root:all-routes', f'spec-valid DAG {tag} cannot be constructed through any route (Cell(TvmBitarray), Cell(bitarray), Builder)',
+                         inp0, 'exception', 'cell')
+                return
+            try:
+                b0 = alt.to_boc()
+                from pytoniq_core.boc.cell import Cell as _C
+                back = _C.one_from_boc(b0)
+                ok = back.hash == alt.hash
+                why = 'hash differs' if not ok else ''
+            except Exception as e:
+                ok, why = False, f'{type(e).__name__}: {e}'
+            if not ok:
+                ctx.fail('unconstructible-root:roundtrip', f'spec-valid DAG {tag}: Cell(TvmBitarray(...)) refuses it; built through another route its bag does not parse back ({why})',
+                         inp0, why, 'the same root')
+            else:
+                ctx.fail('unconstructible-root:ctor', f'spec-valid DAG {tag} is refused by Cell(TvmBitarray(1023, bits), refs, type) although another route builds it',
+                         inp0, 'exception', 'cell')
         return
     small = sum(len(n[1]) + 8 for n in nodes) < 40000
     inp = {'tag': tag, 'dag': [list(n) for n in nodes] if small else f'<{len(nodes)} nodes, regenerate from tag and seed>', 'root': root}
